@@ -2454,20 +2454,11 @@ impl CanonicalizeContext {
 			if children.iter().all(|&child| {
 				is_pseudo_script(as_element(child))
 			}) {
-				let parent = get_parent(mrow);  // must exist
-				let is_first_child = mrow.preceding_siblings().is_empty();
-				if  is_first_child {
-					return mrow;	// FIX: what should happen
-				}
-				if crate::xpath_functions::IsNode::is_scripted(&parent) {
-					return mrow;		// already in a script position
-				}
-				if name(&parent) == "mrow" {
-					mrow.set_attribute_value("data-pseudo-script", "true");
-					return handle_pseudo_scripts(parent);
-				} else {
-					return mrow;	// FIX: what should happen?
-				}
+				// Note: for an mrow that is not the first child of its parent mrow, this used to mark the mrow and return
+				//   handle_pseudo_scripts(parent). The caller (clean_mathml) continues with the returned element as the one being cleaned,
+				//   so it ended up cleaning the parent from inside the cleaning of the child: unbounded recursion (stack overflow) for
+				//   input such as "( <mrow>'</mrow> , q )". It also asked for the parent of 'math' for <math><mo>'</mo></math> (panic).
+				return mrow;	// FIX: what should happen?
 			}
 
 			let mut i = 1;
